@@ -547,7 +547,7 @@ TIERS = {
         ('queue', dict(q=2, cycles=2, plans=NESTED_Q),
          {'required': QUEUE_REQ + ['callback-dispatch-deferred-behind-pending']}),
         ('switch', dict(q=1)),
-        ('lifecycle', dict(L=2, actions=1, bystander=False)),
+        ('lifecycle', dict(L=2, actions=1, bystander=False), {'required': ['armed-callback-was-postponed']}),
     ],
     'thorough': [
         ('queue', dict(q=3, cycles=3)),
